@@ -1,7 +1,7 @@
 (* C16 — Frame.origin and extract_outermost keep their documented contracts.
    Property theorems only (proved in P_Frames_Origin.v) about the model functions of M_Frames.v
    that the generated case files evaluate ([extract], [outermost], [flatten], [better_origin]). *)
-Require Import Base M_Frames M_Frames_Fault P_Frames_Fault P_Frames_Origin.
+Require Import Base M_Frames M_Frames_Fault P_Frames_Fault P_Frames_Origin M_Chain P_Chain P_Chain_Origin.
 
 (* a suspended chain g0 -> g1 (generator-like objects 0 and 1 with own frames 0 and 1), a plain
    wrapper object 2 around it, an object 3 without frames, an object 4 whose unwrap raises *)
@@ -80,4 +80,43 @@ Print Assumptions C16_suspended_chain_origin.
 Example C16_suspended_chain_origin_ex :
   wref (attr ex16 0) = true /\ gent (attr ex16 0) = true /\ ownf (attr ex16 0) = Some 0 /\
   unwrap ex16 0 = USeq [Some (IPy 0); Some (IObj 1)] /\ fault ex16 5 = false /\ (uguard ex16 <? 1) = false.
+Proof. vm_compute. repeat split; reflexivity. Qed.
+
+(* whole chains (M_Chain, the C03 model: the built-in unwrap rules compiled into an M_Frames.cfg):
+   every frame of the extraction of a well-formed suspended await / yield-from chain has as origin
+   the generator-like object it was found inside -- the object at that position of the chain is
+   a coroutine / generator / async generator link whose own frame is that frame *)
+Theorem C16_chain_origins : forall ch sl wc s fo,
+  wf_susp ch = true -> is_nil ch = false -> 2 * chain_len ch + 2 <= default_fuel ->
+  extract (chain_cfg ch sl wc all_guards 100) chain_root = Ok s -> In fo (s_frames s) ->
+  exists o k r next, f_org fo = Some o /\ node_at ch o = Link k (Some (f_py fo)) r next.
+Proof. exact chain_origins. Qed.
+Print Assumptions C16_chain_origins.
+
+(* ... and extract_outermost(origin) returns that very frame with that origin, for every frame of
+   the chain; the hypothesis gen_wf of C16_origin_recovers is discharged for the built-in rules *)
+Theorem C16_chain_origin_recovers : forall ch sl wc s fo,
+  wf_susp ch = true -> is_nil ch = false -> 2 * chain_len ch + 2 <= default_fuel ->
+  extract (chain_cfg ch sl wc all_guards 100) chain_root = Ok s -> In fo (s_frames s) ->
+  exists o, f_org fo = Some o /\
+    match outermost (chain_cfg ch sl wc all_guards 100) (IObj o) with
+    | OFrame fo' => f_py fo' = f_py fo /\ f_org fo' = Some o
+    | ORaise _ => False
+    | _ => True
+    end.
+Proof. exact chain_origin_recovers. Qed.
+Print Assumptions C16_chain_origin_recovers.
+
+Theorem C16_builtin_rules_gen_wf : forall ch sl wc g ug, wf_susp ch = true -> gen_wf (chain_cfg ch sl wc g ug).
+Proof. exact chain_gen_wf. Qed.
+Print Assumptions C16_builtin_rules_gen_wf.
+
+Definition ex_chain : chain :=
+  Link KCoro (Some 0) false (CoroWrapper (Link KCoro (Some 1) false (ASend (Link KAGen (Some 2) true (Link KGen (Some 3) false Leaf))))).
+Example C16_chain_ex :
+  wf_susp ex_chain = true /\ is_nil ex_chain = false /\
+  extract (chain_cfg ex_chain (fun _ => []) true all_guards 100) chain_root =
+    Ok (Stack [FOut 0 false (Some 0) []; FOut 1 false (Some 2) []; FOut 2 false (Some 4) []; FOut 3 false (Some 5) []]
+              (LOne (QObj 6)) []) /\
+  outermost (chain_cfg ex_chain (fun _ => []) true all_guards 100) (IObj 4) = OFrame (FOut 2 false (Some 4) []).
 Proof. vm_compute. repeat split; reflexivity. Qed.
